@@ -505,5 +505,41 @@ def mon_C16(sc, trace, probes, info):
     return out
 
 
-MONITORS = {'C16': mon_C16, 'C02': mon_C02, 'C01': mon_C01, 'C03': mon_C03, 'C04': mon_C04, 'C05': mon_C05, 'C07': mon_C07, 'C08': mon_C08,
+# ------------------------------------------------------------------------------------------- C12 (machine family)
+def mon_C12(sc, trace, probes, info):
+    """supply never negative; whatever was borrowed is back at quiescence; a claim never waits"""
+    from harness import gen
+    out = []
+    nres = len(sc.get('res', []))
+    for e in trace:
+        if len(e) >= 4 and e[1] == 30 and e[2] < 100 and e[3] < 0:
+            out.append(('level of resource %r is %r at time %r' % (e[2], e[3], e[0]), None))
+    stmts = [s[0] for r in sc['roots'] for s in gen.walk(r)]
+    if info['final'][0] == 90 and nres and not any(x in stmts for x in ('increase', 'decrease', 'set_res')):
+        final = trace[-1][-nres:]
+        # every borrower is gone or blocked forever at quiescence; blocked ones hold nothing
+        inside = {}
+        for p in probes:
+            if p[0] == 'borrow_in':
+                inside[p[3]] = p
+            elif p[0] == 'borrow_out':
+                inside.pop(p[3], None)
+        if not inside:
+            for i, (cap, c) in enumerate(sc['res']):
+                if final[i] != c:
+                    out.append(('at quiescence resource %r has level %r although nobody holds anything (supply %r)' % (i, final[i], c), None))
+    reqs = {}
+    for p in probes:
+        if p[0] == 'borrow_req' and p[1] == 'claim':
+            reqs[p[4]] = p
+        elif p[0] == 'borrow_in' and p[3] in reqs:
+            q = reqs[p[3]]
+            if p[5] != q[6]:
+                out.append(('claim %r entered at %r but was requested at %r: a claim must never wait' % (p[3], p[5], q[6]), None))
+            if q[7] < q[3]:
+                out.append(('claim %r of %r succeeded although only %r was available on entry' % (p[3], q[3], q[7]), None))
+    return out
+
+
+MONITORS = {'C12': mon_C12, 'C16': mon_C16, 'C02': mon_C02, 'C01': mon_C01, 'C03': mon_C03, 'C04': mon_C04, 'C05': mon_C05, 'C07': mon_C07, 'C08': mon_C08,
             'C09': mon_C09, 'C10': mon_C10}
